@@ -4,6 +4,7 @@ import itertools
 import os
 import sys
 import threading
+import weakref
 import time
 import warnings
 
@@ -111,6 +112,7 @@ def make_monitored_daemon_class(base=None):
             self.evlog = EventLog()
             self.hs_validator = None
             self.on_disconnect = None
+            self.conn_refs = {}                 # connection serial -> weakref to the server-side SocketConnection
             self.reply_annotations = None       # dict: sent with every response (the documented Daemon.annotations() override point)
             super().__init__(*a, **k)
 
@@ -122,6 +124,7 @@ def make_monitored_daemon_class(base=None):
                 serial = next(MonitoredDaemon._serials)
             # never key connections by id(conn): ids are reused; stamp a serial on the object
             conn._vserial = serial
+            self.conn_refs[serial] = weakref.ref(conn)
             self.evlog.add("handshake", serial, data if isinstance(data, (str, int, type(None))) else repr(data)[:100])
             if self.hs_validator is not None:
                 return self.hs_validator(conn, data)
@@ -216,6 +219,17 @@ class Fixture:
         if self.servertype == "thread":
             return self.busy_count()
         return len(self.selector_conns())
+
+    def server_side_closed(self, serial):
+        """True once the daemon has closed (or dropped) its end of the connection with this serial"""
+        ref = getattr(self.daemon, "conn_refs", {}).get(serial)
+        conn = ref() if ref is not None else None
+        if conn is None:
+            return True
+        try:
+            return conn.sock.fileno() == -1
+        except Exception:
+            return True
 
     def wait_until(self, pred, timeout=10.0, step=0.005):
         """bounded wait; returns True if pred() became true (the caller treats False as inconclusive)"""
